@@ -22,7 +22,8 @@ def run_lines(exe, lines, timeout=3000):
     open(path, "w").write("\n".join(lines) + "\n")
     rc, out, err = vlib.sh2("ulimit -s unlimited 2>/dev/null; exec %s %s" % (exe, path), timeout=timeout)
     os.remove(path)
-    res = out.splitlines()
+    res = out.split("\n")          # not splitlines(): error texts may carry \x0b, \x1c, \x85 ... from file names
+    if res and res[-1] == "": res.pop()
     if rc != 0 or len(res) != len(lines):
         raise RuntimeError("%s failed rc=%s (%d of %d lines)\n%s" % (exe, rc, len(res), len(lines), err[-2000:]))
     return res
@@ -159,13 +160,13 @@ def gen_e2e(rng, thorough, idx):
             if cmin == 0: cmin = 4096
             cmin = min(cmin, csize)
             cmax = csize * rng.choice([1, 2, 4, 8])
-        maxfile = rng.choice([20000, 100000, 300000]) if csize else rng.choice([20000, 200000, 1500000 if thorough else 600000])
+        maxfile = rng.choice([20000, 100000, 300000 if thorough else 150000]) if csize else rng.choice([20000, 200000, 1500000 if thorough else 600000])
     else:
         csize = rng.choice([512, 1000, 4096, 10000, 65536, 1 << 20])
-        maxfile = min(csize * rng.choice([2, 5, 9]), 400000)
+        maxfile = min(csize * rng.choice([2, 5, 9]), 400000 if thorough else 120000)
     dpack = rng.choice([1, 1, 500, 3000, 20000, 100000, 4 << 20])
     tpack = rng.choice([1, 300, 2000, 20000, 4 << 20])
-    entries = rng.choice([5, 15, 30, 60 if thorough else 40])
+    entries = rng.choice([5, 15, 30, 60 if thorough else 30])
     depth = rng.choice([1, 3, 5])
     flags = 0
     if rng.random() < 0.35: flags |= 1
@@ -176,6 +177,27 @@ def gen_e2e(rng, thorough, idx):
     if idx == 0:   # the replay of DESIGN section 7 row 6 is always part of the run
         version, comp, chunker, csize, cmin, cmax, dpack, tpack, entries, depth, maxfile, flags = 2, -999, 0, 0, 0, 0, 1, 4000, 10, 3, 2000, 9
     return "E %d %d %d %d %d %d %d %d %d %d %d %d %d" % (seed, version, comp, chunker, csize, cmin, cmax, dpack, tpack, entries, depth, maxfile, flags)
+
+
+def gen_stream(rng, thorough, idx):
+    """archive from an in-memory ReadSource with fragmenting / interrupted readers"""
+    seed = rng.randint(1, 2 ** 40)
+    chunker = rng.choice([0, 0, 0, 1])
+    if chunker == 0:
+        csize = rng.choice([8192, 16384, 65536, 1 << 20])
+        cmin = 4096 if csize < (1 << 20) or rng.random() < 0.5 else 0
+        cmax = csize * rng.choice([2, 4, 8])
+        maxfile = rng.choice([60000, 200000, 400000]) if csize < (1 << 20) else (1500000 if thorough else 700000)
+    else:
+        csize, cmin, cmax = rng.choice([512, 4096, 10000, 65536]), 0, 0
+        maxfile = min(csize * rng.choice([3, 9, 30]), 300000)
+    nfiles = rng.randint(1, 5)
+    style = rng.choice([0, 0, 1, 2])
+    if idx == 0:   # rabin with the smallest accepted minimum: most bytes go through the rolling-hash read loop
+        chunker, csize, cmin, cmax, nfiles, maxfile, style = 0, 1 << 20, 4096, 8 << 20, 2, 600000, 0
+    if idx == 1:
+        chunker, csize, cmin, cmax, nfiles, maxfile, style = 0, 8192, 4096, 65536, 4, 150000, 1
+    return "S %d %d %d %d %d %d %d %d" % (seed, chunker, csize, cmin, cmax, nfiles, maxfile, style)
 
 
 # ------------------------------------------------------------------ the check
@@ -201,6 +223,8 @@ def run(ctx):
         "e2e: LocalSource metadata capture, LocalDestination syscalls, serde, chunker, crypto and zstd are exercised, not proved; ctime/atime/ownership/xattrs are outside the property (run as root)",
         "e2e: chunker parameters are taken from the region that does not panic (rabin min_size >= 4096 <= avg, fixed size >= 512); the refused/panicking regions belong to C18/C06 (DESIGN section 7 rows 5, 13)",
         "e2e: version-1 repositories are created with Repository::init_with_config (Repository::init refuses set_version = 1)",
+        "e2e: pre-epoch / sub-second mtimes are compared exactly as the temp file system stores them (coverage.distribution e2e_total_times_exact counts those stored exactly as requested)",
+        "stream: the reader's short reads and ErrorKind::Interrupted are legal std::io::Read behaviour; local files do not produce them, so they are injected through a custom ReadSource",
     ]
     ctx.level = "proof"
     try:
@@ -344,7 +368,7 @@ def run(ctx):
 
     lap('pipeline')
     # ---- 4. end to end: the property itself
-    ecases = [gen_e2e(rng, T, i) for i in range(250 if T else 24)]
+    ecases = [gen_e2e(rng, T, i) for i in range(250 if T else 14)]
     io = run_lines(impl, ecases, timeout=6000)
     nfail, refused = 0, 0
     for ln, a in zip(ecases, io):
@@ -352,7 +376,7 @@ def run(ctx):
         if a.startswith("ok "):
             kv = dict(x.split("=") for x in a.split()[1:])
             bump("e2e_ok")
-            for k2 in ("files", "chunks", "trees", "packs", "reads", "crosstype", "planted", "bytes"):
+            for k2 in ("files", "chunks", "trees", "packs", "reads", "crosstype", "planted", "bytes", "bypath", "subrestores", "times", "times_exact"):
                 bump("e2e_total_" + k2, int(kv[k2]))
             if int(kv["crosstype"]) > 0: bump("e2e_cases_with_realized_cross_type_collision")
             if int(kv["files"]) >= 5 and int(kv["packs"]) >= 3: nontriv.add(("E", ln))
@@ -371,16 +395,37 @@ def run(ctx):
                           {"case": ln, "impl": a[:3000], "how_to_replay": HOWTO + " ; the case line holds seed and configuration, the tree is regenerated from the seed"},
                           signature=(sig if sig != "other" else None))
     lap('e2e')
+    # ---- 5. backup through Repository::archive from readers with short reads and EINTR
+    scases = [gen_stream(rng, T, i) for i in range(120 if T else 14)]
+    so = run_lines(impl, scases, timeout=3000)
+    for ln, a in zip(scases, so):
+        evals += 1
+        if a.startswith("ok "):
+            kv = dict(x.split("=") for x in a.split()[1:])
+            bump("stream_ok")
+            for k2 in ("files", "bytes", "chunks", "short_reads", "eintr", "short_then_eintr"):
+                bump("stream_total_" + k2, int(kv[k2]))
+            if int(kv["short_then_eintr"]) > 0 and int(kv["chunks"]) >= 2: nontriv.add(("S", ln))
+        elif a.startswith("FAIL sig=config-refused"):
+            bump("stream_config_refused")
+        elif a.startswith("FAIL sig=infra"):
+            raise RuntimeError("stream harness step failed: " + a)
+        else:
+            nfail += 1
+            what = a.split("what=", 1)[1] if "what=" in a else a
+            ctx.violation("backup from a reader with short reads / interrupted reads does not reproduce the bytes read: " + what[:300],
+                          {"case": ln, "impl": a[:3000], "how_to_replay": HOWTO + " ; files and the read fragmentation are regenerated from the seed"})
+    lap('stream')
     if refused > len(ecases) // 4:
         ctx.violation("the e2e generator produces configurations the library refuses (%d of %d)" % (refused, len(ecases)),
                       {"refused": refused}, no_input=True)
     cov.update({
         "evaluations": evals, "distinct_nontrivial": len(nontriv),
-        "rule": "names: byte strings from {random bytes, specials, valid/truncated/overlong/surrogate UTF-8, escaped-looking text} (non-trivial = stored form differs from the name) and stored names with well/ill-formed escapes; read_at: blob lists incl. zero-length blobs x (offset,len) at/around blob boundaries, EOF, 2^63, usize::MAX (non-trivial = >= 2 blobs); pipeline: 1-5 packer segments over a pool of 2-7 ids, both types, pack sizes 1..1MiB (non-trivial = >= 3 blobs); e2e: seeded trees x (version, compression, chunker, chunk sizes, pack sizes) (non-trivial = >= 5 files and >= 3 packs); distinct by full case text",
+        "rule": "names: byte strings from {random bytes, specials, valid/truncated/overlong/surrogate UTF-8, escaped-looking text} (non-trivial = stored form differs from the name) and stored names with well/ill-formed escapes; read_at: blob lists incl. zero-length blobs x (offset,len) at/around blob boundaries, EOF, 2^63, usize::MAX (non-trivial = >= 2 blobs); pipeline: 1-5 packer segments over a pool of 2-7 ids, both types, pack sizes 1..1MiB (non-trivial = >= 3 blobs); e2e: seeded trees x (version, compression, chunker, chunk sizes, pack sizes), every listed entry also looked up by path, two sub-directories restored by path, mtimes before/at/after the epoch with sub-second parts (non-trivial = >= 5 files and >= 3 packs); stream: in-memory ReadSource through Repository::archive with fragmented and interrupted reads (non-trivial = a short read directly followed by EINTR occurred and >= 2 chunks); distinct by full case text",
         "samples": samples[:8], "distribution": hist, "indexed_typed_in_source": (meta or {}).get("indexed_typed"),
         "traces_validated_against_impl": len(ne_lines) + len(nu_lines) + len(rl) + len(pl),
         "disagreements_checked": len(mism) + len(ctx.violations), "model_impl_mismatches": len(mism),
-        "e2e_cases": len(ecases), "e2e_failures": nfail,
+        "e2e_cases": len(ecases), "stream_cases": len(scases), "e2e_failures": nfail,
     })
     if mism and not ctx.violations:
         ctx.violation("correspondence broken: extracted C01 model disagrees with the implementation (%d cases) although the round-trip oracle holds" % len(mism),
